@@ -202,11 +202,17 @@ impl ProtocolRequestBuilder for crate::Request {
             vec![]
         };
 
+        // The headers live in a randomly seeded hash map. Emit them ordered by name (the
+        // values of one name keep their order), so that the same request is always the
+        // same sequence of bytes once serialized.
+        let mut headers: Vec<_> = self.iter().collect();
+        headers.sort_by(|(a, _), (b, _)| a.as_str().cmp(b.as_str()));
+
         Ok(HttpRequest {
             method: self.method().to_string(),
             url: self.url().to_string(),
-            headers: self
-                .iter()
+            headers: headers
+                .into_iter()
                 .flat_map(|(name, values)| {
                     values.iter().map(|value| HttpHeader {
                         name: name.to_string(),
